@@ -350,11 +350,11 @@ func (w *aWorld) genPatches(failing bool, create bool) []workload.PatchDesc {
 				guess = "stale-" + mark
 			}
 
-			out = append(out, workload.PatchDesc{Kind: workload.ReplaceNote, IDs: []string{guess}, Mark: mark})
+			out = append(out, workload.PatchDesc{Kind: workload.ReplaceNote, IDs: []string{guess}, Mark: noteValue(mark)})
 		case workload.RemoveNote:
 			out = append(out, workload.PatchDesc{Kind: workload.RemoveNote, Mark: mark})
 		default:
-			out = append(out, workload.PatchDesc{Kind: workload.AddNote, Mark: mark})
+			out = append(out, workload.PatchDesc{Kind: workload.AddNote, Mark: noteValue(mark)})
 		}
 	}
 
@@ -364,6 +364,16 @@ func (w *aWorld) genPatches(failing bool, create bool) []workload.PatchDesc {
 	}
 
 	return out
+}
+
+// noteValue: every other note carries characters that JSON encoders may or may not escape (a later "test" operation of
+// an ietf-json-patch compares the stored value with the value in the patch).
+func noteValue(mark string) string {
+	if len(mark)%2 == 0 {
+		return mark + " & <" + mark + "> \u2028"
+	}
+
+	return mark
 }
 
 func (w *aWorld) version() *simenv.Version { return w.pc.CurrentVersion() }
@@ -1376,6 +1386,12 @@ func (w *aWorld) anchorUnauthorised(st *refmodel.State) {
 		p.kind += "+baddelta"
 	}
 
+	// ... or no delta at all (such a request parses in batch mode)
+	if typ == operation.TypeUpdate && p.delta == refmodel.DeltaOK && T.Draw(8, "unauth.nodelta") == 0 {
+		p.noDelta, p.delta = true, refmodel.DeltaInvalid
+		p.kind += "+nodelta"
+	}
+
 	req, m := w.build(p)
 
 	if strings.HasPrefix(p.kind, "unauth-foreign-key") {
@@ -2231,6 +2247,17 @@ func (w *aWorld) oracleTimeTravel() {
 
 	if _, e := w.resolve(w.proc, document.WithVersionID("no-such-version")); e == nil {
 		w.fail("C06", "version-id/unknown", "resolving at an unknown version id succeeded")
+	}
+
+	// a time long before the first operation - before the epoch - is an error like any other time before the first operation
+	if len(pub) > 0 {
+		for _, early := range []string{"1969-12-31T23:59:59Z", "1901-01-01T00:00:00Z", "0001-01-01T00:00:00Z"} {
+			if _, e := w.resolve(w.proc, document.WithVersionTime(early)); e == nil {
+				w.fail("C06", "version-time/before-first", fmt.Sprintf("resolving at version time %s, before the first operation, succeeded", early))
+
+				break
+			}
+		}
 	}
 }
 
